@@ -254,7 +254,37 @@ func cmdCheck(args []string) int {
 	knownObl := 0
 	replayDir := filepath.Join(*verif, "replays", prop)
 	_ = os.RemoveAll(replayDir)
+	// An obligation that cannot even be stated against the current source (its contract names a local, a
+	// loop or a function that is not there any more, or a statement has left the SQL subset) is UNDECIDED,
+	// not violated: there is no solver verdict on it. It is reported, counted as not discharged, and does
+	// not change the exit code (a renamed local is not a broken property; neither is it a proof).
+	undecided := []string{}
+	undecidedSeen := map[string]bool{}
+	noteUndecided := func(fn, what string) {
+		k := fn + "|" + what
+		if undecidedSeen[k] {
+			return
+		}
+		undecidedSeen[k] = true
+		undecided = append(undecided, shortFunc(fn)+": "+what)
+		fmt.Printf("UNDECIDED property=%s function=%s obligation=%q\n", prop, shortFunc(fn), what)
+	}
+	isUndecidable := func(kind, name string) bool {
+		switch kind {
+		case "contract":
+			return true
+		case "loop-exit":
+			return strings.HasSuffix(name, " exists")
+		case "sql":
+			return strings.Contains(name, "outside the verified SQL subset")
+		}
+		return false
+	}
 	report := func(fn, name, kind, pos, status, file, raw, model string, trace []string) {
+		if isUndecidable(kind, name) {
+			noteUndecided(fn, name)
+			return
+		}
 		id := fn + " :: " + name + " @ " + pos
 		tr := " " + strings.Join(trace, " ") + " "
 		for _, kf := range known {
@@ -308,17 +338,16 @@ func cmdCheck(args []string) int {
 	}
 	for i, r := range results {
 		if r.err != nil {
-			violations++
-			rp := filepath.Join(replayDir, fmt.Sprintf("%03d-engine.txt", violations))
-			_ = os.MkdirAll(replayDir, 0o755)
-			_ = os.WriteFile(rp, []byte("obligation: contract of "+units[i].Key+" can be checked against the current source\nstatus: failed\n\n"+r.err.Error()+"\n"), 0o644)
-			fmt.Printf("VIOLATION property=%s replay=%s no-failing-input-found\n", prop, rp)
+			total++
+			noteUndecided(units[i].Key, "the contract of this function can be checked against the current source: "+r.err.Error())
 			continue
 		}
 		rep := r.rep
 		functions = append(functions, rep.Key)
 		if len(rep.Unsupported) > 0 {
 			notVerified = append(notVerified, rep.Key+": "+strings.Join(rep.Unsupported, "; "))
+			total++
+			noteUndecided(rep.Key, "every path of the function stays inside the verified subset: "+strings.Join(rep.Unsupported, "; "))
 		}
 		for _, n := range rep.Intrinsics {
 			if d, ok := intrinsicDocs[n]; ok {
@@ -431,10 +460,11 @@ func cmdCheck(args []string) int {
 			"slowest_obligation_s":      slowestS,
 			"slowest_obligation":        slowestName,
 			"solver_timeout_s":          timeout,
+			"undecided":                 undecided,
 		}}
 	writeJSON(evPath, ev)
-	fmt.Printf("property %s: %d obligations, %d discharged, %d violations, %d known findings, %d functions (%d with unsupported paths), %.1fs\n",
-		prop, total, discharged, violations, len(knownHits), len(functions), len(notVerified), time.Since(start).Seconds())
+	fmt.Printf("property %s: %d obligations, %d discharged, %d violations, %d undecided, %d known findings, %d functions (%d with unsupported paths), %.1fs\n",
+		prop, total, discharged, violations, len(undecided), len(knownHits), len(functions), len(notVerified), time.Since(start).Seconds())
 	if violations > 0 {
 		return 1
 	}
